@@ -1,0 +1,18 @@
+// SPDX-FileCopyrightText: 2026 The Pion community <https://pion.ly>
+// SPDX-License-Identifier: MIT
+
+//go:build !verif
+
+// Package verifhook holds test-only instrumentation points used by the
+// external runtime-verification harness. Without the "verif" build tag every
+// function is an empty inlinable stub.
+package verifhook
+
+// Enabled reports whether the package was built with the verif tag.
+const Enabled = false
+
+// TakeTicker is a no-op without the verif tag.
+func TakeTicker(any, func(), <-chan struct{}) bool { return false }
+
+// Yield is a no-op without the verif tag.
+func Yield(string) {}
